@@ -51,12 +51,12 @@ VARIABLES
 vars == <<pub, st, rk, last, n, hist, plan>>
 view == <<pub, st, rk, last, n, plan>>
 
-Kinds == {"create", "owneradd", "update", "incorporate", "delegadd", "addkey", "removekey", "removerole"}
+Kinds == {"create", "owneradd", "owneraddstaged", "update", "incorporate", "delegadd", "addkey", "removekey", "removerole"}
 Can(kind) == n < MaxSteps /\ (plan = <<>> \/ (n < Len(plan) /\ plan[n + 1] = kind))
 
 Init ==
   /\ pub = [ver |-> [ts |-> 1, sn |-> 1, tg |-> 1], dA |-> NoDel, A |-> NoFile, B |-> NoFile]
-  /\ st = [A |-> NoFile, B |-> NoFile, T |-> [on |-> FALSE]]
+  /\ st = [A |-> NoFile, B |-> NoFile, T |-> [on |-> FALSE]]     \* T: [on, ver, dA, afile]
   /\ rk = FALSE
   /\ last = [act |-> "none", ok |-> TRUE, err |-> ""] /\ n = 0 /\ hist = <<>>
   /\ plan \in Plans
@@ -133,6 +133,17 @@ DelegAddRole(K, thr, v) ==
         ELSE IF Cardinality(sg) < pub.dA.thr THEN Step(c, FALSE, "SigningKeysNotFound", pub, st)
         ELSE Step(c, TRUE, "", pub, [st EXCEPT !.A = f])
 
+\* owner: add-role without --sign-all -- only targets.json (delegating a* to A) and a copy of A.json are
+\* written, to the owner's staging directory; `update --role targets` publishes them later and, unlike
+\* --sign-all, verifies A.json against the new delegation when it does
+OwnerAddRoleStaged(thr, v) ==
+  /\ Can("owneraddstaged") /\ st.A.on /\ ~pub.dA.on /\ ~st.A.sub.on
+  /\ LET f == st.A
+         c == [act |-> "owneraddstaged", thr |-> thr, ver |-> v]
+     IN IF ~Loads(pub) THEN Step(c, FALSE, "RepoLoad", pub, st)
+        ELSE IF thr > Cardinality(f.table) THEN Step(c, FALSE, "InvalidThreshold", pub, st)
+        ELSE Step(c, TRUE, "", pub, [st EXCEPT !.T = [on |-> TRUE, ver |-> v, dA |-> Del(f.table, thr), afile |-> [f EXCEPT !.bfile = NoFile]]])
+
 \* owner: add-key / remove-key / remove on the delegation of A -- a new targets.json in the owner's
 \* staging directory (nothing is checked about thresholds)
 OwnerKeyOp(op, k, v) ==
@@ -142,12 +153,12 @@ OwnerKeyOp(op, k, v) ==
                 [] OTHER            -> NoDel
          c == [act |-> op, key |-> k, ver |-> v]
      IN IF ~Loads(pub) THEN Step(c, FALSE, "RepoLoad", pub, st)
-        ELSE Step(c, TRUE, "", pub, [st EXCEPT !.T = [on |-> TRUE, ver |-> v, dA |-> d]])
+        ELSE Step(c, TRUE, "", pub, [st EXCEPT !.T = [on |-> TRUE, ver |-> v, dA |-> d, afile |-> NoFile]])
 
 \* owner: update --role r --incoming-metadata <staging dir of r>
 \* (RepositoryEditor::update_delegated_targets, then sign and write)
 Incorporate(r) ==
-  /\ Can("incorporate")
+  /\ (Can("incorporate") \/ Can("incorporate" \o r))      \* a plan may name the role
   /\ LET c  == [act |-> "incorporate", role |-> r]
          nv == Bump(pub.ver)
      IN
@@ -157,10 +168,14 @@ Incorporate(r) ==
         \* not be below the one `update` has just given the current targets (--targets-version)
         IF ~st.T.on THEN Step(c, FALSE, "Transport", pub, st)
         ELSE IF st.T.ver < nv.tg THEN Step(c, FALSE, "VersionMismatch", pub, st)
-        ELSE LET p == [pub EXCEPT !.ver = [nv EXCEPT !.tg = st.T.ver], !.dA = st.T.dA,
-                                  !.A = IF st.T.dA.on THEN pub.A ELSE NoFile,
-                                  !.B = IF st.T.dA.on THEN pub.B ELSE NoFile]
-             IN Step(c, TRUE, "", p, st)       \* roles still delegated are carried over unverified
+        ELSE LET newA == st.T.dA.on /\ ~pub.A.on       \* a role the repository does not have yet: fetched and verified
+                 a    == IF ~st.T.dA.on THEN NoFile ELSE IF pub.A.on THEN pub.A ELSE st.T.afile
+                 p    == [pub EXCEPT !.ver = [nv EXCEPT !.tg = st.T.ver], !.dA = st.T.dA, !.A = a,
+                                     !.B = IF st.T.dA.on /\ pub.A.on THEN pub.B ELSE NoFile]
+             IN IF newA /\ ~st.T.afile.on THEN Step(c, FALSE, "Transport", pub, st)
+                ELSE IF newA /\ Cardinality(st.T.afile.signers \cap st.T.dA.keys) < st.T.dA.thr THEN Step(c, FALSE, "Verify", pub, st)
+                ELSE IF a.on /\ ~(a.names \subseteq MatchA) THEN Step(c, FALSE, "TargetNotDelegated", pub, st)
+                ELSE Step(c, TRUE, "", p, st)       \* roles the repository already has are carried over unverified
      ELSE
         LET d == IF r = "A" THEN pub.dA ELSE DB(pub)
             f == st[r]
@@ -188,6 +203,7 @@ Next ==
   \/ \E K \in {{KA}, {KA, KA2}} : CreateRole("A", K, 1)
   \/ CreateRole("B", {KB}, 1)
   \/ \E thr \in 1..2 : OwnerAddRole(thr)
+  \/ \E thr \in 1..2, v \in {pub.ver.tg, pub.ver.tg + 1} : OwnerAddRoleStaged(thr, v)
   \/ \E K \in {{KA}, {KA2}, {KA, KA2}}, add \in {{}, {"a1"}, {"a2"}, {"b1"}}, v \in VerChoices(CurVer("A")) : UpdateTargets("A", K, add, v)
   \/ \E K \in {{KB}, {KA}}, add \in {{"a1"}, {"a2"}}, v \in VerChoices(CurVer("B")) : UpdateTargets("B", K, add, v)
   \/ \E K \in {{KA}, {KA, KA2}}, thr \in 1..2 : DelegAddRole(K, thr, IF CurVer("A") < MaxVer THEN CurVer("A") + 1 ELSE MaxVer)
